@@ -19,7 +19,7 @@ PROP = dict(
         "fault runs use descriptions that are valid on their tree, so the number of calls does not depend on Go's dict enumeration order; "
         "the observable of a run in which a fault fired is only whether the command failed",
     ],
-    level_text="Proof: 11 Lean theorems about a transliteration of pkg/arrai/out.go (outputValue, outputTupleDir and its entry switch, "
+    level_text="Proof: 12 Lean theorems about a transliteration of pkg/arrai/out.go (outputValue, outputTupleDir and its entry switch, "
                "configureOutput, applyIfExistsConfig with all five ifExists values, applyFilesFields, outputFile, getDirField, entryPath) "
                "over a tree model of the file system with a fault oracle: on a valid description the run succeeds and the file system "
                "is the old one with PATH replaced by Spec.apply (exact inside, untouched outside); on an invalid one, or an uncreatable "
